@@ -29,6 +29,7 @@ def main(argv):
             i += 2
         else:
             i += 1
+    os.environ['VERIF_TIER_EFFECTIVE'] = tier
     mod = importlib.import_module(f'harness.props.{prop.lower()}')
     if replay:
         if hasattr(mod, 'replay'):
